@@ -26,8 +26,19 @@ type LedgerScan struct {
 	BadOwners []string
 }
 
+// ScanLedgerMultiset returns the multiset itself (for adjustments).
+func ScanLedgerMultiset(db ethdb.Database, loc common.Location) (*multiset.MultiSet, error) {
+	_, ms, err := scanLedger(db, loc)
+	return ms, err
+}
+
 // ScanLedger walks the UTXO and lockup key spaces of a zone database.
 func ScanLedger(db ethdb.Database, loc common.Location) (*LedgerScan, error) {
+	s, _, err := scanLedger(db, loc)
+	return s, err
+}
+
+func scanLedger(db ethdb.Database, loc common.Location) (*LedgerScan, *multiset.MultiSet, error) {
 	ms := multiset.New()
 	s := &LedgerScan{QiValue: new(big.Int)}
 	for _, u := range AllUTXOs(db) {
@@ -45,10 +56,10 @@ func ScanLedger(db ethdb.Database, loc common.Location) (*LedgerScan, error) {
 	for _, l := range AllLockups(db) {
 		owner, miner, lockupByte, epoch, err := rawdb.ReverseCoinbaseLockupKey(l.Key, loc)
 		if err != nil {
-			return nil, fmt.Errorf("lockup key %x: %w", l.Key, err)
+			return nil, nil, fmt.Errorf("lockup key %x: %w", l.Key, err)
 		}
 		if len(l.Value) < 38 {
-			return nil, fmt.Errorf("lockup value of key %x has %d bytes", l.Key, len(l.Value))
+			return nil, nil, fmt.Errorf("lockup value of key %x has %d bytes", l.Key, len(l.Value))
 		}
 		amount := new(big.Int).SetBytes(l.Value[:32])
 		height := binary.BigEndian.Uint32(l.Value[32:36])
@@ -63,13 +74,22 @@ func ScanLedger(db ethdb.Database, loc common.Location) (*LedgerScan, error) {
 	}
 	s.Root = ms.Hash()
 	s.Count = uint64(s.Utxos + s.Lockups)
-	return s, nil
+	return s, ms, nil
 }
 
 // CheckHeadCommitment compares the scan with the executed zone head's header
 // (call after Settle: zone state is executed lazily). It returns a list of
 // discrepancies.
 func (n *Net) CheckHeadCommitment() ([]string, *LedgerScan, error) {
+	return n.CheckHeadCommitmentWithDrift(nil)
+}
+
+// CheckHeadCommitmentWithDrift is CheckHeadCommitment for a history in which a
+// listed finding already made the header commitment count some outputs twice
+// (drift = UTXO hashes removed from the commitment once more than from the
+// database): the scan is adjusted by exactly those elements, so that any OTHER
+// discrepancy is still reported.
+func (n *Net) CheckHeadCommitmentWithDrift(drift []common.Hash) ([]string, *LedgerScan, error) {
 	z := n.Zone()
 	head := z.Core.CurrentHeader()
 	if head == nil {
@@ -86,6 +106,17 @@ func (n *Net) CheckHeadCommitment() ([]string, *LedgerScan, error) {
 	var bad []string
 	if n.Zone().Core.Slice().HeaderChain().IsGenesisHash(block.Hash()) {
 		return nil, scan, nil
+	}
+	if len(drift) > 0 {
+		full, err := ScanLedgerMultiset(z.DB, ZoneLoc)
+		if err != nil {
+			return nil, nil, err
+		}
+		for _, h := range drift {
+			full.Remove(h.Bytes())
+		}
+		scan.Root = full.Hash()
+		scan.Count -= uint64(len(drift))
 	}
 	if scan.Root != block.UTXORoot() {
 		bad = append(bad, fmt.Sprintf("utxo-root: header %x, multiset of database scan %x (%d outputs, %d lockups)", block.UTXORoot(), scan.Root, scan.Utxos, scan.Lockups))
